@@ -9,7 +9,8 @@ PID = "C18"
 LEVEL = "exploration"
 RULE = ("topology with two molecule names interleaved ([A x1, B x2, A x2]: indices of A are 0,3,4) and residues S S B S / W; build "
         "files: every [ molecule ] index range 0<=a<=b<=6 for each name x every residue directive range 0<=s<=t<=6 for each residue "
-        "name (sphere restraint and rw_restriction), plus two overlapping / adjacent blocks; -start strings: every combination of "
+        "name (sphere restraint and rw_restriction), plus two overlapping / adjacent blocks; [ distance_restraints ] and "
+        "[ persistence_length ] under every [ molecule ] range 0<=a<=b<=5 (reached molecule indices == named indices in range); -start strings: every combination of "
         "present / omitted molname, #idx, resname, #resid; -lig: every such combination for host and ligand, executed through the "
         "real gen_coords; -split: every set partition of a 2- and 3-atom residue into named parts in topologies that also contain "
         "residues not being split. Oracle: the set of (molecule index, residue) carrying a tag equals the half-open reference "
@@ -46,6 +47,7 @@ def cases(tier):
     yield dict(kind="tags", directive="sphere", tier=tier)
     yield dict(kind="tags", directive="rw", tier=tier)
     yield dict(kind="tags-multi", tier=tier)
+    yield dict(kind="pairdir", tier=tier)
     yield dict(kind="start", tier=tier)
     for i in range(4):
         yield dict(kind="lig", part=i, tier=tier)
@@ -97,6 +99,40 @@ def check_tags(case):
                                 viols.append(dict(assertion="other-nodes-untouched", tags=[], message=f"{text!r}: node {k} changed {ref} -> {v}", case=case1, detail={}))
                         if want and len(want) < 12:
                             keys.append(f"{case['directive']}:{molname}:{a}:{b}:{resname}:{s}:{t}")
+    return viols, evals, keys
+
+
+def check_pair_directives(case):
+    """[ distance_restraints ] and [ persistence_length ] inside a [ molecule ] block: they must reach exactly the molecules with
+    the block's name and an index in the block's range"""
+    from polyply.src.build_file_parser import read_build_file
+    viols, evals, keys = [], 0, []
+    names = {"CH4": [0, 3, 4], "W": [1, 2]}
+    with H.tempdir() as d:
+        base = read_top(d)
+        for a, b in itertools.combinations_with_replacement(range(0, 6), 2):   # indices past the last molecule name nothing: out of scope
+            for directive in ("dist", "pers"):
+                body = "[ distance_restraints ]\n0 3 1.5 0.3\n" if directive == "dist" else "[ persistence_length ]\nWCM 1.0 0 3\n"
+                text = f"[ molecule ]\nCH4 {a} {b}\n" + body
+                top = copy.deepcopy(base)
+                evals += 1
+                case1 = dict(kind="pairdir1", text=text)
+                want = sorted(mi for mi in names["CH4"] if a <= mi < b)
+                tags = ["range-covers-molecules-of-another-name"] if any(a <= mi < b for mi in names["W"]) else []
+                try:
+                    read_build_file(text.splitlines(), top, top.molecules)
+                except Exception as exc:  # noqa
+                    viols.append(crash_violation(exc, case1, assertion="build-file-readable", tags=tags))
+                    continue
+                if directive == "dist":
+                    got = sorted(int(idx) for (nm, idx), v in top.distance_restraints.items() if v)
+                else:
+                    got = sorted(int(i) for spec in top.persistences for i in spec.mol_idxs)
+                if got != want and len(viols) < 20:
+                    viols.append(dict(assertion="tag-selects-exactly-named-range", tags=tags + [f"directive:{directive}"],
+                                      message=f"{text!r}: reaches molecules {got}, expected {want}", case=case1, detail={}))
+                if want:
+                    keys.append(f"pairdir:{directive}:{a}:{b}")
     return viols, evals, keys
 
 
@@ -389,7 +425,7 @@ def check_split_run(case):
     return viols, evals, keys
 
 
-FUNCS = {"tags": check_tags, "tags-multi": check_tags_multi, "start": check_start, "lig": check_lig, "split": check_split,
+FUNCS = {"pairdir": check_pair_directives, "tags": check_tags, "tags-multi": check_tags_multi, "start": check_start, "lig": check_lig, "split": check_split,
          "split-run": check_split_run}
 
 
@@ -397,7 +433,7 @@ def run_case(case):
     kind = case["kind"]
     if kind not in FUNCS:
         # replay of single sub-cases is done by re-running the owning family (cheap) and filtering
-        fam = {"tags1": "tags", "tagsm1": "tags-multi", "start1": "start", "lig1": "lig", "split1": "split", "splitrun1": "split-run"}[kind]
+        fam = {"tags1": "tags", "tagsm1": "tags-multi", "pairdir1": "pairdir", "start1": "start", "lig1": "lig", "split1": "split", "splitrun1": "split-run"}[kind]
         out = []
         for part in range(4 if fam == "lig" else 1):
             c = dict(kind=fam, tier="quick", part=part, directive="sphere" if case.get("key") != "rw_options" else "rw")
